@@ -122,6 +122,8 @@ def is_zero(e, seed=0, points=8):
     e = sp.sympify(e)
     if e == 0:
         return True, "structural", None
+    if e.has(sp.nan):
+        return False, "the value is NaN", None
     d = e
     size = sp.count_ops(e)
     # symbolic proof only where it is cheap and safe: rational functions of the symbols
